@@ -4,6 +4,7 @@ import FeatModel.Model.Burgers
 import FeatModel.Model.Blocked
 import FeatModel.Model.LocalFE
 import FeatModel.Model.TraceOrient
+import FeatModel.Model.Hooks
 /-! line-protocol driver for the C16 models (CSR/banded/vector scatter and gather, symbolic assembly, cell-loop assembly) -/
 open FeatModel FeatModel.Proto FeatModel.Adj FeatModel.Asm
 
@@ -171,6 +172,22 @@ def handle : P String := do
           | none => "UNINIT"
           | some d => showMatrix p d
         pure (" ".intercalate (s!"H {reqs.length}" :: outs))
+  | "hkasm" =>
+    -- user-defined operator with a per-cell coefficient read in prepare(): base local matrices (recorded with the
+    -- identity operator) times the coefficient of the cell, through the stateful hook loop
+    skipToRec
+    let kind ← tok; let nT ← nat; let nS ← nat; let calls ← listOf callP
+    let _ ← tok; let coefs ← ratList
+    let tm := calls.map (·.rows); let sm := calls.map (·.cols)
+    let g := if kind == "M1" then symbolicGraph1 nT tm else symbolicGraph2 nT nS tm sm
+    let cells : List (HookCell Rat) := calls.zipIdx.map fun (c, t) => ⟨t, c.rows, c.cols, c.loc⟩
+    match g with
+    | none => pure "ABORT"
+    | some g =>
+      let p := Pattern.ofGraph g
+      match assemble p (hookLoop (fun t => coefs.getD t 0) (-1000) (-1000) cells) with
+      | none => pure "UNINIT"
+      | some st => pure (showMatrix p st.data)
   | "trpt" =>
     -- orientation code and mapped facet point of the 3-D trace assembler
     let shape ← tok; let lf ← nat; let p ← nat; let s0 ← rat; let s1 ← rat
